@@ -43,7 +43,7 @@ BUILTIN_NAMES = {
     "getattr", "setattr", "object", "sum", "any", "all", "enumerate", "zip", "abs", "print", "sorted", "dict", "set",
     "frozenset", "divmod", "cast",
     # primitives for trusted model code (stubs)
-    "nondet_bool", "nondet_int", "nondet_bytes", "nondet_obj", "nondet_real", "assume", "require", "raise_any", "ghost_event", "seq_of", "filter", "cancel_point", "suspend_point",
+    "nondet", "nondet_bool", "nondet_int", "nondet_bytes", "nondet_obj", "nondet_real", "assume", "require", "raise_any", "ghost_event", "seq_of", "filter", "cancel_point", "suspend_point",
 }
 
 
@@ -413,7 +413,35 @@ class EngineCore:
         exc = self.make_exc(st, classes[0], ())
         if len(classes) > 1:
             st.heap[exc.oid]["$clsset"] = tuple(classes)
+            # the (unknown) class is also an SMT value, so that specifications can talk about it: typeof(e, 'X') over a
+            # lazy set is the disjunction of the members below X, and every narrowing of the set is recorded in the pc
+            kv = smt.fresh("exc_class", z3.IntSort())
+            st.heap[exc.oid]["$clsvar"] = kv
+            st.assume(z3.Or([kv == self.cls_gid(c) for c in classes]))
         return exc
+
+    _CLS_GIDS: list = []
+
+    def cls_gid(self, c: Any) -> int:
+        for i, k in enumerate(EngineCore._CLS_GIDS):
+            if k == c:
+                return i
+        EngineCore._CLS_GIDS.append(c)
+        return len(EngineCore._CLS_GIDS) - 1
+
+    def typeof_term(self, st: State, v: Any, cls: Any):
+        """`isinstance(v, cls)` as an SMT Bool, precise also for a lazily-split exception object."""
+        if isinstance(v, Ref) and v.oid in st.heap and st.heap[v.oid].get("$clsset"):
+            cs = st.heap[v.oid]["$clsset"]
+            yes = [c for c in cs if self.is_subclass(c, cls)]
+            if len(yes) == len(cs):
+                return z3.BoolVal(True)
+            if not yes:
+                return z3.BoolVal(False)
+            kv = st.heap[v.oid]["$clsvar"]
+            return z3.Or([kv == self.cls_gid(c) for c in yes])
+        c = self.class_of(v)
+        return z3.BoolVal(c is not None and self.is_subclass(c, cls))
 
     def exc_classes(self, st: State, exc: Ref) -> tuple:
         cs = st.heap[exc.oid].get("$clsset")
@@ -434,6 +462,10 @@ class EngineCore:
             s2 = st.clone()
             st.heap[exc.oid]["$clsset"] = yes
             s2.heap[exc.oid]["$clsset"] = no
+            kv = st.heap[exc.oid].get("$clsvar")
+            if kv is not None:
+                st.assume(z3.Or([kv == self.cls_gid(c) for c in yes]))
+                s2.assume(z3.Or([kv == self.cls_gid(c) for c in no]))
             return [(st, True), (s2, False)]
         return [(st, bool(yes))]
 
@@ -452,7 +484,10 @@ class EngineCore:
                 if isinstance(c, ClassInfo):
                     out.append(ClassVal(c))
                 else:
-                    v = self.external_value(c[1])
+                    try:
+                        v = self.external_value(c[1])
+                    except EngineError:
+                        continue  # a non-exception external base (typing.Generic, Protocol, ...): irrelevant for isinstance tests here
                     if isinstance(v, PyClass):
                         for b in v.cls.__mro__:
                             if PyClass(b) not in out:
